@@ -170,6 +170,7 @@ def check(case, ctx):
             fails.append(Failure("%s:eff-differs-from-swaps-carried-out" % name, "eff=%s, accepted swaps observed=%d" % (eff, rec.count), case))
     if moved:
         ctx.label("moved")
+    ctx.target(rec.count, "accepted-swaps")
     if moved and rich:
         ctx.mark_nontrivial(case)
     return fails
